@@ -1,10 +1,762 @@
 import Pun.Model.B2B
 import Pun.Props.C01
+import Mathlib.Algebra.Order.Ring.Abs
+import Mathlib.Algebra.Order.Monoid.Unbundled.Pow
+import Mathlib.Tactic.Ring
+/-!
+# C13 — interval propagation strategies nest around the true range
+
+All statements are about the functions the driver executes (`Pun.Expr.evalIvl`,
+`Pun.Expr.evalPt`, `Pun.B2B.tiles`, `corners`, `direct`, `endpoints`,
+`subinterval`).  `φ` (the values of exp / sqrt) is arbitrary; only
+monotonicity on the domain is assumed (`Mono φ`).
+-/
 set_option linter.unusedSimpArgs false
 set_option linter.unusedVariables false
 namespace Pun.B2B
 open Pun Pun.Arith Pun.Expr
 
-theorem placeholder_c13 : (1 : Nat) = 1 := rfl
+/-- `y` lies in the value (a number is the point interval) -/
+def Mem (y : Rat) (v : Val) : Prop := v.lo ≤ y ∧ y ≤ v.hi
+
+/-- the point `x` lies in the box (same length, coordinatewise) -/
+def InBox (x : List Rat) (box : Box) : Prop := List.Forall₂ (fun xi p => p.1 ≤ xi ∧ xi ≤ p.2) x box
+
+/-- the only fact assumed about exp and sqrt: monotone on the domain -/
+def Mono (φ : UFun → Rat → Rat) : Prop := ∀ f x y, f.dom x → x ≤ y → φ f x ≤ φ f y
+
+theorem mk_ok {l h : Rat} {V : Val} (hm : mk l h = .ok V) : V = .ivl l h ∧ l ≤ h := by
+  unfold mk at hm
+  split at hm
+  · cases hm; exact ⟨rfl, by assumption⟩
+  · cases hm
+
+theorem mem_num {y c : Rat} (h : Mem y (.num c)) : y = c := le_antisymm h.2 h.1
+
+theorem mem_mk {l h y : Rat} {V : Val} (hm : mk l h = .ok V) (h1 : l ≤ y) (h2 : y ≤ h) : Mem y V := by
+  obtain ⟨rfl, _⟩ := mk_ok hm; exact ⟨h1, h2⟩
+
+/-! ## soundness of one operator application -/
+
+theorem binVal_sound (op : BinOp) (l r V : Val) (x y : Rat) (hl : Mem x l) (hr : Mem y r)
+    (h : binVal op l r = .ok V) : ∃ z, binPt op x y = .ok z ∧ Mem z V := by
+  cases l with
+  | num p =>
+    have hx := mem_num hl; subst hx
+    cases r with
+    | num s =>
+      have hy := mem_num hr; subst hy
+      cases op <;> simp only [binVal, binPt] at h ⊢
+      · cases h; exact ⟨_, rfl, le_refl _, le_refl _⟩
+      · cases h; exact ⟨_, rfl, le_refl _, le_refl _⟩
+      · cases h; exact ⟨_, rfl, le_refl _, le_refl _⟩
+      · split at h
+        · cases h
+        · rename_i hy0; rw [if_neg hy0]; cases h; exact ⟨_, rfl, le_refl _, le_refl _⟩
+    | ivl c d =>
+      obtain ⟨hy1, hy2⟩ := hr
+      simp only [Val.lo, Val.hi] at hy1 hy2
+      cases op <;> simp only [binVal, binPt] at h ⊢
+      · exact ⟨_, rfl, mem_mk h (by linarith) (by linarith)⟩
+      · exact ⟨_, rfl, mem_mk h (by linarith) (by linarith)⟩
+      · split at h
+        · exact ⟨_, rfl, mem_mk h (by nlinarith) (by nlinarith)⟩
+        · exact ⟨_, rfl, mem_mk h (by nlinarith) (by nlinarith)⟩
+      · split at h
+        · cases h
+        · rename_i hz
+          have h0 : 0 < c ∨ d < 0 := by
+            by_contra hc
+            rw [not_or, not_lt, not_lt] at hc
+            exact hz ⟨hc.1, hc.2⟩
+          have hy0 : y ≠ 0 := by
+            rcases h0 with h0 | h0
+            · exact ne_of_gt (lt_of_lt_of_le h0 hy1)
+            · exact ne_of_lt (lt_of_le_of_lt hy2 h0)
+          rw [if_neg hy0]
+          refine ⟨_, rfl, ?_⟩
+          split at h
+          · rename_i hp
+            rcases h0 with h0 | h0
+            · have hyp : 0 < y := lt_of_lt_of_le h0 hy1
+              have hdp : 0 < d := lt_of_lt_of_le hyp hy2
+              refine mem_mk h ?_ ?_
+              · rw [div_le_div_iff₀ hdp hyp]; nlinarith
+              · rw [div_le_div_iff₀ hyp h0]; nlinarith
+            · have hyn : y < 0 := lt_of_le_of_lt hy2 h0
+              have hcn : c < 0 := lt_of_le_of_lt hy1 hyn
+              refine mem_mk h ?_ ?_
+              · rw [div_le_div_iff_neg h0 hyn]; nlinarith
+              · rw [div_le_div_iff_neg hyn hcn]; nlinarith
+          · rename_i hp
+            have hp' : x < 0 := not_le.mp hp
+            rcases h0 with h0 | h0
+            · have hyp : 0 < y := lt_of_lt_of_le h0 hy1
+              have hdp : 0 < d := lt_of_lt_of_le hyp hy2
+              refine mem_mk h ?_ ?_
+              · rw [div_le_div_iff₀ h0 hyp]; nlinarith
+              · rw [div_le_div_iff₀ hyp hdp]; nlinarith
+            · have hyn : y < 0 := lt_of_le_of_lt hy2 h0
+              have hcn : c < 0 := lt_of_le_of_lt hy1 hyn
+              refine mem_mk h ?_ ?_
+              · rw [div_le_div_iff_neg hcn hyn]; nlinarith
+              · rw [div_le_div_iff_neg hyn h0]; nlinarith
+  | ivl a b =>
+    obtain ⟨hx1, hx2⟩ := hl
+    simp only [Val.lo, Val.hi] at hx1 hx2
+    cases r with
+    | num s =>
+      have hy := mem_num hr; subst hy
+      cases op <;> simp only [binVal, binPt] at h ⊢
+      · exact ⟨_, rfl, mem_mk h (by linarith) (by linarith)⟩
+      · exact ⟨_, rfl, mem_mk h (by linarith) (by linarith)⟩
+      · split at h
+        · exact ⟨_, rfl, mem_mk h (by nlinarith) (by nlinarith)⟩
+        · exact ⟨_, rfl, mem_mk h (by nlinarith) (by nlinarith)⟩
+      · split at h
+        · cases h
+        · rename_i hy0
+          rw [if_neg hy0]
+          refine ⟨_, rfl, ?_⟩
+          split at h
+          · rename_i hp
+            exact mem_mk h (by rw [div_le_div_iff₀ hp hp]; nlinarith) (by rw [div_le_div_iff₀ hp hp]; nlinarith)
+          · rename_i hp
+            have hn : y < 0 := lt_of_le_of_ne (not_lt.mp hp) hy0
+            exact mem_mk h (by rw [div_le_div_iff_neg hn hn]; nlinarith) (by rw [div_le_div_iff_neg hn hn]; nlinarith)
+    | ivl c d =>
+      obtain ⟨hy1, hy2⟩ := hr
+      simp only [Val.lo, Val.hi] at hy1 hy2
+      have hab : a ≤ b := le_trans hx1 hx2
+      have hcd : c ≤ d := le_trans hy1 hy2
+      cases op <;> simp only [binVal, binPt] at h ⊢
+      · exact ⟨_, rfl, mem_mk h (by linarith) (by linarith)⟩
+      · exact ⟨_, rfl, mem_mk h (by linarith) (by linarith)⟩
+      · rw [mulTable_exact a b c d hab hcd] at h
+        have := mul_hull a b c d x y hx1 hx2 hy1 hy2
+        exact ⟨_, rfl, mem_mk h this.1 this.2⟩
+      · have h0 : 0 < c ∨ d < 0 := by
+          by_contra hc
+          rw [not_or, not_lt, not_lt] at hc
+          rw [div_straddle_raises a b c d ⟨hc.1, hc.2⟩] at h
+          cases h
+        obtain ⟨l, hh, ht, hs, _, _⟩ := divTable_sound a b c d hab hcd h0
+        rw [ht] at h
+        have hy0 : y ≠ 0 := by
+          rcases h0 with h0 | h0
+          · exact ne_of_gt (lt_of_lt_of_le h0 hy1)
+          · exact ne_of_lt (lt_of_le_of_lt hy2 h0)
+        rw [if_neg hy0]
+        have := hs x y hx1 hx2 hy1 hy2
+        exact ⟨_, rfl, mem_mk h this.1 this.2⟩
+
+theorem even_pow_bounds (a b x : Rat) (k : Nat) (hk : k % 2 = 0) (h1 : a ≤ x) (h2 : x ≤ b) :
+    (if a > 0 then a ^ k else if b < 0 then b ^ k else 0) ≤ x ^ k ∧ x ^ k ≤ max (a ^ k) (b ^ k) := by
+  have hev : Even k := Nat.even_iff.mpr hk
+  have habs : ∀ t : Rat, |t| ^ k = t ^ k := fun t => hev.pow_abs t
+  constructor
+  · split
+    · rename_i ha
+      exact pow_le_pow_left₀ (le_of_lt ha) h1 k
+    · split
+      · rename_i hb
+        rw [← habs b, ← habs x]
+        apply pow_le_pow_left₀ (abs_nonneg _)
+        rw [abs_of_neg hb, abs_of_neg (lt_of_le_of_lt h2 hb)]; linarith
+      · exact hev.pow_nonneg x
+  · rw [← habs x, ← habs a, ← habs b]
+    rcases le_total 0 x with hx | hx
+    · apply le_max_of_le_right
+      apply pow_le_pow_left₀ (abs_nonneg _)
+      rw [abs_of_nonneg hx, abs_of_nonneg (le_trans hx h2)]; exact h2
+    · apply le_max_of_le_left
+      apply pow_le_pow_left₀ (abs_nonneg _)
+      rw [abs_of_nonpos hx, abs_of_nonpos (le_trans h1 hx)]; linarith
+
+theorem powVal_sound (v V : Val) (k : Nat) (x : Rat) (hv : Mem x v) (h : powVal v k = .ok V) : Mem (x ^ k) V := by
+  cases v with
+  | num c =>
+    have := mem_num hv; subst this
+    simp only [powVal] at h; cases h; exact ⟨le_refl _, le_refl _⟩
+  | ivl a b =>
+    obtain ⟨h1, h2⟩ := hv
+    simp only [Val.lo, Val.hi] at h1 h2
+    simp only [powVal] at h
+    split at h
+    · rename_i hk
+      have := even_pow_bounds a b x k hk h1 h2
+      exact mem_mk h this.1 this.2
+    · rename_i hk
+      have hodd : Odd k := Nat.odd_iff.mpr (by omega)
+      have hm := hodd.strictMono_pow (R := Rat)
+      have e1 : a ^ k ≤ x ^ k := hm.monotone h1
+      have e2 : x ^ k ≤ b ^ k := hm.monotone h2
+      exact mem_mk h (le_trans (min_le_left _ _) e1) (le_trans e2 (le_max_right _ _))
+
+theorem unVal_sound (φ : UFun → Rat → Rat) (hφ : Mono φ) (f : UFun) (v V : Val) (x : Rat) (hv : Mem x v)
+    (h : unVal φ f v = .ok V) : ∃ z, unPt φ f x = .ok z ∧ Mem z V := by
+  cases v with
+  | num c =>
+    have := mem_num hv; subst this
+    simp only [unVal, unPt] at h ⊢
+    split at h
+    · rename_i hd
+      rw [if_pos hd]; cases h; exact ⟨_, rfl, le_refl _, le_refl _⟩
+    · cases h
+  | ivl a b =>
+    obtain ⟨h1, h2⟩ := hv
+    simp only [Val.lo, Val.hi] at h1 h2
+    simp only [unVal] at h
+    split at h
+    · rename_i hd
+      have hdx : f.dom x := by
+        cases f
+        · trivial
+        · exact le_trans hd.1 h1
+      simp only [unPt, if_pos hdx]
+      exact ⟨_, rfl, mem_mk h (hφ f a x hd.1 h1) (hφ f x b hdx h2)⟩
+    · cases h
+
+theorem getElem_inBox {x : List Rat} {box : Box} (h : InBox x box) (i : Nat) (p : Rat × Rat)
+    (hp : box[i]? = some p) : ∃ v, x[i]? = some v ∧ p.1 ≤ v ∧ v ≤ p.2 := by
+  induction h generalizing i with
+  | nil => simp at hp
+  | cons hab _ ih =>
+    cases i with
+    | zero => simp at hp; subst hp; exact ⟨_, by simp, hab⟩
+    | succ j => simp at hp ⊢; exact ih j hp
+
+/-- ★ fundamental theorem: whenever interval evaluation over the box returns a value, the function is
+defined at every point of the box and its value lies in the returned interval.  Any dimension, any
+depth, repeated variables. -/
+theorem fundamental (φ : UFun → Rat → Rat) (hφ : Mono φ) (e : Expr) (box : Box) (x : List Rat)
+    (hx : InBox x box) (V : Val) (h : evalIvl φ box e = .ok V) :
+    ∃ y, evalPt φ x e = .ok y ∧ Mem y V := by
+  induction e generalizing V with
+  | var i =>
+    simp only [evalIvl] at h
+    split at h
+    · rename_i p hp
+      obtain ⟨v, hv, h1, h2⟩ := getElem_inBox hx i p hp
+      cases h
+      exact ⟨v, by simp [evalPt, hv], h1, h2⟩
+    · cases h
+  | const c => simp only [evalIvl] at h; cases h; exact ⟨c, rfl, le_refl _, le_refl _⟩
+  | add a b iha ihb | sub a b iha ihb | mul a b iha ihb | div a b iha ihb =>
+    simp only [evalIvl, bind, Except.bind] at h
+    split at h
+    · cases h
+    · rename_i u hu
+      split at h
+      · cases h
+      · rename_i v hv
+        obtain ⟨xa, hxa, ma⟩ := iha u hu
+        obtain ⟨xb, hxb, mb⟩ := ihb v hv
+        obtain ⟨z, hz, mz⟩ := binVal_sound _ u v V xa xb ma mb h
+        exact ⟨z, by simp only [evalPt, hxa, hxb, bind, Except.bind]; exact hz, mz⟩
+  | pow a k iha =>
+    simp only [evalIvl, bind, Except.bind] at h
+    split at h
+    · cases h
+    · rename_i u hu
+      obtain ⟨xa, hxa, ma⟩ := iha u hu
+      exact ⟨xa ^ k, by simp only [evalPt, hxa, bind, Except.bind], powVal_sound u V k xa ma h⟩
+  | un f a iha =>
+    simp only [evalIvl, bind, Except.bind] at h
+    split at h
+    · cases h
+    · rename_i u hu
+      obtain ⟨xa, hxa, ma⟩ := iha u hu
+      obtain ⟨z, hz, mz⟩ := unVal_sound φ hφ f u V xa ma h
+      exact ⟨z, by simp only [evalPt, hxa, bind, Except.bind]; exact hz, mz⟩
+
+/-- ★ direct evaluation encloses the true range -/
+theorem direct_encloses (φ : UFun → Rat → Rat) (hφ : Mono φ) (e : Expr) (box : Box) (V : Val)
+    (h : direct φ e box = .ok V) (x : List Rat) (hx : InBox x box) :
+    ∃ y, evalPt φ x e = .ok y ∧ V.lo ≤ y ∧ y ≤ V.hi :=
+  fundamental φ hφ e box x hx V h
+
+example : direct (fun _ x => x) (.sub (.mul (.var 0) (.var 1)) (.var 0)) [(-1, 2), (3, 5)] = .ok (.ivl (-7) 11) := by
+  decide +kernel
+
+/-! ## cartesian products, corners, tiles -/
+
+theorem mem_prodL {α : Type} (ls : List (List α)) (t : List α) :
+    t ∈ prodL ls ↔ List.Forall₂ (fun a l => a ∈ l) t ls := by
+  induction ls generalizing t with
+  | nil => simp [prodL]
+  | cons l ls ih =>
+    simp only [prodL, List.mem_flatMap, List.mem_map, List.forall₂_cons_right_iff]
+    constructor
+    · rintro ⟨a, ha, t', ht', rfl⟩
+      exact ⟨a, t', ha, (ih t').mp ht', rfl⟩
+    · rintro ⟨a, t', ha, ht', rfl⟩
+      exact ⟨a, ha, t', (ih t').mpr ht', rfl⟩
+
+theorem mapM_ok {α β : Type} (f : α → Except Err β) (l : List α) (rs : List β) (h : l.mapM f = .ok rs) :
+    List.Forall₂ (fun a r => f a = .ok r) l rs := by
+  induction l generalizing rs with
+  | nil => simp [pure, Except.pure] at h; subst h; exact .nil
+  | cons a l ih =>
+    simp only [List.mapM_cons, bind, Except.bind] at h
+    split at h
+    · cases h
+    · rename_i b hb
+      split at h
+      · cases h
+      · rename_i bs hbs
+        simp only [pure, Except.pure] at h
+        cases h
+        exact .cons hb (ih bs hbs)
+
+theorem foldl_min_spec (xs : List Rat) (x : Rat) :
+    (∀ y ∈ x :: xs, xs.foldl min x ≤ y) ∧ xs.foldl min x ∈ x :: xs := by
+  induction xs generalizing x with
+  | nil => simp
+  | cons z zs ih =>
+    obtain ⟨h1, h2⟩ := ih (min x z)
+    simp only [List.foldl_cons]
+    refine ⟨?_, ?_⟩
+    · intro y hy
+      simp only [List.mem_cons] at hy
+      rcases hy with hy | hy | hy
+      · rw [hy]; exact le_trans (h1 (min x z) List.mem_cons_self) (min_le_left _ _)
+      · rw [hy]; exact le_trans (h1 (min x z) List.mem_cons_self) (min_le_right _ _)
+      · exact h1 y (List.mem_cons_of_mem _ hy)
+    · simp only [List.mem_cons] at h2 ⊢
+      rcases h2 with h2 | h2
+      · rcases min_choice x z with hc | hc
+        · left; rw [h2, hc]
+        · right; left; rw [h2, hc]
+      · right; right; exact h2
+
+theorem foldl_max_spec (xs : List Rat) (x : Rat) :
+    (∀ y ∈ x :: xs, y ≤ xs.foldl max x) ∧ xs.foldl max x ∈ x :: xs := by
+  induction xs generalizing x with
+  | nil => simp
+  | cons z zs ih =>
+    obtain ⟨h1, h2⟩ := ih (max x z)
+    simp only [List.foldl_cons]
+    refine ⟨?_, ?_⟩
+    · intro y hy
+      simp only [List.mem_cons] at hy
+      rcases hy with hy | hy | hy
+      · rw [hy]; exact le_trans (le_max_left _ _) (h1 (max x z) List.mem_cons_self)
+      · rw [hy]; exact le_trans (le_max_right _ _) (h1 (max x z) List.mem_cons_self)
+      · exact h1 y (List.mem_cons_of_mem _ hy)
+    · simp only [List.mem_cons] at h2 ⊢
+      rcases h2 with h2 | h2
+      · rcases max_choice x z with hc | hc
+        · left; rw [h2, hc]
+        · right; left; rw [h2, hc]
+      · right; right; exact h2
+
+theorem minL1_spec {l : List Rat} {m : Rat} (h : minL1 l = some m) : (∀ y ∈ l, m ≤ y) ∧ m ∈ l := by
+  cases l with
+  | nil => simp [minL1] at h
+  | cons x xs => simp only [minL1, Option.some.injEq] at h; subst h; exact foldl_min_spec xs x
+
+theorem maxL1_spec {l : List Rat} {m : Rat} (h : maxL1 l = some m) : (∀ y ∈ l, y ≤ m) ∧ m ∈ l := by
+  cases l with
+  | nil => simp [maxL1] at h
+  | cons x xs => simp only [maxL1, Option.some.injEq] at h; subst h; exact foldl_max_spec xs x
+
+/-- `reconstitute` returns the hull: it contains every piece and both ends are ends of pieces -/
+theorem reconstitute_spec {rs : List Val} {V : Val} (h : reconstitute rs = .ok V) :
+    (∀ r ∈ rs, V.lo ≤ r.lo ∧ r.hi ≤ V.hi) ∧ (∃ r ∈ rs, r.lo = V.lo) ∧ (∃ r ∈ rs, r.hi = V.hi) := by
+  unfold reconstitute at h
+  split at h
+  · rename_i l hh hl hh'
+    obtain ⟨rfl, _⟩ := mk_ok h
+    obtain ⟨a1, a2⟩ := minL1_spec hl
+    obtain ⟨b1, b2⟩ := maxL1_spec hh'
+    refine ⟨fun r hr => ⟨a1 _ (List.mem_map_of_mem hr), b1 _ (List.mem_map_of_mem hr)⟩, ?_, ?_⟩
+    · obtain ⟨r, hr, e⟩ := List.mem_map.mp a2; exact ⟨r, hr, e⟩
+    · obtain ⟨r, hr, e⟩ := List.mem_map.mp b2; exact ⟨r, hr, e⟩
+  · cases h
+
+def ValidBox (box : Box) : Prop := ∀ p ∈ box, p.1 ≤ p.2
+
+/-- `t` is a sub-box of `box` -/
+def SubBox (t box : Box) : Prop := List.Forall₂ (fun q p => p.1 ≤ q.1 ∧ q.1 ≤ q.2 ∧ q.2 ≤ p.2) t box
+
+theorem knot_zero (lo hi : Rat) (n : Nat) : knot lo hi n 0 = lo := by simp [knot]
+
+theorem knot_last (lo hi : Rat) (n : Nat) (hn : n ≠ 0) : knot lo hi n n = hi := by
+  have : (n : Rat) ≠ 0 := Nat.cast_ne_zero.mpr hn
+  unfold knot; field_simp; ring
+
+theorem knot_mono (lo hi : Rat) (n : Nat) (h : lo ≤ hi) (i j : Nat) (hij : i ≤ j) :
+    knot lo hi n i ≤ knot lo hi n j := by
+  unfold knot
+  have hw : 0 ≤ (hi - lo) / (n : Rat) := div_nonneg (by linarith) (Nat.cast_nonneg n)
+  have : (i : Rat) ≤ (j : Rat) := Nat.cast_le.mpr hij
+  nlinarith
+
+theorem knot_cover (lo hi x : Rat) (n : Nat) (m : Nat) (hm : 1 ≤ m) (h1 : lo ≤ x) (h2 : x ≤ knot lo hi n m) :
+    ∃ i, i < m ∧ knot lo hi n i ≤ x ∧ x ≤ knot lo hi n (i + 1) := by
+  induction m with
+  | zero => omega
+  | succ k ih =>
+    rcases Nat.eq_zero_or_pos k with hk | hk
+    · subst hk; exact ⟨0, by omega, by rw [knot_zero]; exact h1, h2⟩
+    · rcases le_total x (knot lo hi n k) with hx | hx
+      · obtain ⟨i, hi', h3, h4⟩ := ih hk hx
+        exact ⟨i, by omega, h3, h4⟩
+      · exact ⟨k, by omega, hx, h2⟩
+
+/-- ★ one side: the tiles cover the side -/
+theorem tiles1_cover (p : Rat × Rat) (n : Nat) (x : Rat) (h1 : p.1 ≤ x) (h2 : x ≤ p.2) :
+    ∃ t ∈ tiles1 p n, t.1 ≤ x ∧ x ≤ t.2 := by
+  unfold tiles1
+  split
+  · exact ⟨p, by simp, h1, h2⟩
+  · rename_i hn
+    have hn0 : n ≠ 0 := by omega
+    obtain ⟨i, hi, h3, h4⟩ := knot_cover p.1 p.2 x n n (by omega) h1 (by rw [knot_last _ _ _ hn0]; exact h2)
+    exact ⟨_, List.mem_map.mpr ⟨i, List.mem_range.mpr hi, rfl⟩, h3, h4⟩
+
+/-- one side: every tile is a valid sub-interval of the side -/
+theorem tiles1_within (p : Rat × Rat) (n : Nat) (hp : p.1 ≤ p.2) (t : Rat × Rat) (ht : t ∈ tiles1 p n) :
+    p.1 ≤ t.1 ∧ t.1 ≤ t.2 ∧ t.2 ≤ p.2 := by
+  unfold tiles1 at ht
+  split at ht
+  · simp at ht; subst ht; exact ⟨le_refl _, hp, le_refl _⟩
+  · rename_i hn
+    have hn0 : n ≠ 0 := by omega
+    obtain ⟨i, hi, rfl⟩ := List.mem_map.mp ht
+    have hi' := List.mem_range.mp hi
+    refine ⟨?_, knot_mono _ _ _ hp _ _ (by omega), ?_⟩
+    · have := knot_mono p.1 p.2 n hp 0 i (by omega); rwa [knot_zero] at this
+    · have := knot_mono p.1 p.2 n hp (i + 1) n (by omega); rwa [knot_last _ _ _ hn0] at this
+
+/-- ★ the tiles cover the box, for every dimension and every subdivision count -/
+theorem tiles_cover (box : Box) (n : Nat) (x : List Rat) (hx : InBox x box) :
+    ∃ t ∈ tiles box n, InBox x t := by
+  have : ∃ t, List.Forall₂ (fun a l => a ∈ l) t (box.map (fun p => tiles1 p n)) ∧ InBox x t := by
+    induction hx with
+    | nil => exact ⟨[], by simp, .nil⟩
+    | cons hab _ ih =>
+      obtain ⟨t, ht, hin⟩ := ih
+      obtain ⟨q, hq, h3, h4⟩ := tiles1_cover _ n _ hab.1 hab.2
+      exact ⟨q :: t, by simp only [List.map_cons]; exact .cons hq ht, .cons ⟨h3, h4⟩ hin⟩
+  obtain ⟨t, ht, hin⟩ := this
+  exact ⟨t, (mem_prodL _ _).mpr ht, hin⟩
+
+/-- ★ every tile is a sub-box of the box (so the tiles reconstitute to nothing larger than the box) -/
+theorem tiles_within (box : Box) (n : Nat) (hv : ValidBox box) (t : Box) (ht : t ∈ tiles box n) : SubBox t box := by
+  have h := (mem_prodL _ _).mp ht
+  clear ht
+  induction box generalizing t with
+  | nil => simp only [List.map_nil, List.forall₂_nil_right_iff] at h; subst h; exact .nil
+  | cons p ps ih =>
+    simp only [List.map_cons, List.forall₂_cons_right_iff] at h
+    obtain ⟨q, t', hq, ht', rfl⟩ := h
+    exact .cons (tiles1_within p n (hv p (by simp)) q hq) (ih (fun r hr => hv r (by simp [hr])) t' ht')
+
+theorem inBox_of_sub {x : List Rat} {t box : Box} (hx : InBox x t) (hs : SubBox t box) : InBox x box := by
+  induction hx generalizing box with
+  | nil => cases hs; exact .nil
+  | cons hab _ ih =>
+    cases hs with
+    | cons h1 h2 => exact .cons ⟨le_trans h1.1 hab.1, le_trans hab.2 h1.2.2⟩ (ih h2)
+
+/-- the tile containing the lower corner starts at the lower corner, the one containing the upper corner
+ends at it: together with `tiles_within`, the tiles reconstitute exactly to the box -/
+theorem tiles_reach_ends (box : Box) (n : Nat) :
+    (∃ t ∈ tiles box n, t.map Prod.fst = box.map Prod.fst) ∧ (∃ t ∈ tiles box n, t.map Prod.snd = box.map Prod.snd) := by
+  have key : ∀ p : Rat × Rat, (∃ q ∈ tiles1 p n, q.1 = p.1) ∧ (∃ q ∈ tiles1 p n, q.2 = p.2) := by
+    intro p
+    unfold tiles1
+    split
+    · exact ⟨⟨p, by simp, rfl⟩, ⟨p, by simp, rfl⟩⟩
+    · rename_i hn
+      have hn0 : n ≠ 0 := by omega
+      refine ⟨⟨_, List.mem_map.mpr ⟨0, List.mem_range.mpr (by omega), rfl⟩, knot_zero _ _ _⟩,
+              ⟨_, List.mem_map.mpr ⟨n - 1, List.mem_range.mpr (by omega), rfl⟩, ?_⟩⟩
+      have : n - 1 + 1 = n := by omega
+      simp only [this]; exact knot_last _ _ _ hn0
+  constructor
+  · have : ∃ t, List.Forall₂ (fun a l => a ∈ l) t (box.map (fun p => tiles1 p n)) ∧ t.map Prod.fst = box.map Prod.fst := by
+      induction box with
+      | nil => exact ⟨[], by simp, rfl⟩
+      | cons p ps ih =>
+        obtain ⟨t, ht, he⟩ := ih
+        obtain ⟨q, hq, hq1⟩ := (key p).1
+        exact ⟨q :: t, by simp only [List.map_cons]; exact .cons hq ht, by simp [he, hq1]⟩
+    obtain ⟨t, ht, he⟩ := this
+    exact ⟨t, (mem_prodL _ _).mpr ht, he⟩
+  · have : ∃ t, List.Forall₂ (fun a l => a ∈ l) t (box.map (fun p => tiles1 p n)) ∧ t.map Prod.snd = box.map Prod.snd := by
+      induction box with
+      | nil => exact ⟨[], by simp, rfl⟩
+      | cons p ps ih =>
+        obtain ⟨t, ht, he⟩ := ih
+        obtain ⟨q, hq, hq1⟩ := (key p).2
+        exact ⟨q :: t, by simp only [List.map_cons]; exact .cons hq ht, by simp [he, hq1]⟩
+    obtain ⟨t, ht, he⟩ := this
+    exact ⟨t, (mem_prodL _ _).mpr ht, he⟩
+
+example : tiles [(-1, 2), (3, 5)] 2 = [[(-1, 1/2), (3, 4)], [(-1, 1/2), (4, 5)], [(1/2, 2), (3, 4)], [(1/2, 2), (4, 5)]] := by
+  decide +kernel
+
+/-- ★ subinterval reconstitution with direct evaluation encloses the true range -/
+theorem subdirect_encloses (φ : UFun → Rat → Rat) (hφ : Mono φ) (e : Expr) (box : Box) (n : Nat) (V : Val)
+    (h : subinterval φ e box (some .direct) (some n) = .ok V) (x : List Rat) (hx : InBox x box) :
+    ∃ y, evalPt φ x e = .ok y ∧ V.lo ≤ y ∧ y ≤ V.hi := by
+  simp only [subinterval, bind, Except.bind] at h
+  split at h
+  · cases h
+  · rename_i rs hrs
+    have hall := mapM_ok _ _ _ hrs
+    obtain ⟨t, ht, hxt⟩ := tiles_cover box n x hx
+    obtain ⟨r, hr, hdr⟩ : ∃ r ∈ rs, direct φ e t = .ok r := by
+      clear hrs h
+      generalize tiles box n = ts at hall ht
+      induction hall with
+      | nil => simp at ht
+      | cons hab _ ih =>
+        simp only [List.mem_cons] at ht
+        rcases ht with rfl | ht
+        · exact ⟨_, by simp, hab⟩
+        · obtain ⟨r, hr, hd⟩ := ih ht; exact ⟨r, by simp [hr], hd⟩
+    obtain ⟨y, hy, m1, m2⟩ := fundamental φ hφ e t x hxt r hdr
+    obtain ⟨hs, _, _⟩ := reconstitute_spec h
+    exact ⟨y, hy, le_trans (hs r hr).1 m1, le_trans m2 (hs r hr).2⟩
+
+/-! ## vertex method -/
+
+theorem corner_inBox (box : Box) (hv : ValidBox box) (c : List Rat) (hc : c ∈ corners box) : InBox c box := by
+  have h := (mem_prodL _ _).mp hc
+  clear hc
+  induction box generalizing c with
+  | nil => simp only [List.map_nil, List.forall₂_nil_right_iff] at h; subst h; exact .nil
+  | cons p ps ih =>
+    simp only [List.map_cons, List.forall₂_cons_right_iff] at h
+    obtain ⟨a, c', ha, hc', rfl⟩ := h
+    have hp := hv p (by simp)
+    refine .cons ?_ (ih (fun r hr => hv r (by simp [hr])) c' hc')
+    simp only [List.mem_cons, List.not_mem_nil, or_false] at ha
+    rcases ha with rfl | rfl
+    · exact ⟨le_refl _, hp⟩
+    · exact ⟨hp, le_refl _⟩
+
+/-- ★ the vertex method returns exactly the minimum and the maximum of the function over the `2^d`
+corners (whatever their enumeration order): both ends are values at corners and every corner value
+lies between them -/
+theorem endpoints_minmax_corners (φ : UFun → Rat → Rat) (e : Expr) (box : Box) (V : Val)
+    (h : endpoints φ e box = .ok V) :
+    (∃ c ∈ corners box, evalPt φ c e = .ok V.lo) ∧ (∃ c ∈ corners box, evalPt φ c e = .ok V.hi) ∧
+    (∀ c ∈ corners box, ∃ y, evalPt φ c e = .ok y ∧ V.lo ≤ y ∧ y ≤ V.hi) := by
+  simp only [endpoints, bind, Except.bind] at h
+  split at h
+  · cases h
+  · rename_i ys hys
+    have hall := mapM_ok _ _ _ hys
+    split at h
+    · rename_i l hh hl hh'
+      obtain ⟨rfl, _⟩ := mk_ok h
+      obtain ⟨a1, a2⟩ := minL1_spec hl
+      obtain ⟨b1, b2⟩ := maxL1_spec hh'
+      simp only [Val.lo, Val.hi]
+      have back : ∀ y ∈ ys, ∃ c ∈ corners box, evalPt φ c e = .ok y := by
+        clear hys hl hh' a1 a2 b1 b2 h
+        generalize corners box = cs at hall
+        induction hall with
+        | nil => simp
+        | cons hab _ ih =>
+          intro y hy
+          simp only [List.mem_cons] at hy
+          rcases hy with rfl | hy
+          · exact ⟨_, by simp, hab⟩
+          · obtain ⟨c, hc, he⟩ := ih y hy; exact ⟨c, by simp [hc], he⟩
+      have fwd : ∀ c ∈ corners box, ∃ y ∈ ys, evalPt φ c e = .ok y := by
+        clear hys hl hh' a1 a2 b1 b2 h back
+        generalize corners box = cs at hall
+        induction hall with
+        | nil => simp
+        | cons hab _ ih =>
+          intro c hc
+          simp only [List.mem_cons] at hc
+          rcases hc with rfl | hc
+          · exact ⟨_, by simp, hab⟩
+          · obtain ⟨y, hy, he⟩ := ih c hc; exact ⟨y, by simp [hy], he⟩
+      refine ⟨back _ a2, back _ b2, fun c hc => ?_⟩
+      obtain ⟨y, hy, he⟩ := fwd c hc
+      exact ⟨y, he, a1 y hy, b1 y hy⟩
+    · cases h
+
+/-- ★ hence the vertex result lies inside the true range: both ends are values of the function at
+points of the box -/
+theorem endpoints_inside_range (φ : UFun → Rat → Rat) (e : Expr) (box : Box) (hv : ValidBox box) (V : Val)
+    (h : endpoints φ e box = .ok V) :
+    (∃ x, InBox x box ∧ evalPt φ x e = .ok V.lo) ∧ (∃ x, InBox x box ∧ evalPt φ x e = .ok V.hi) := by
+  obtain ⟨⟨c1, h1, e1⟩, ⟨c2, h2, e2⟩, _⟩ := endpoints_minmax_corners φ e box V h
+  exact ⟨⟨c1, corner_inBox box hv c1 h1, e1⟩, ⟨c2, corner_inBox box hv c2 h2, e2⟩⟩
+
+example : endpoints (fun _ x => x) (.sub (.mul (.var 0) (.var 1)) (.var 0)) [(-1, 2), (3, 5)] = .ok (.ivl (-4) 8) := by
+  decide +kernel
+
+/-! ## subinterval reconstitution with vertices -/
+
+theorem forall₂_left {α β : Type} {R : α → β → Prop} {l : List α} {rs : List β} (h : List.Forall₂ R l rs)
+    (a : α) (ha : a ∈ l) : ∃ r ∈ rs, R a r := by
+  induction h with
+  | nil => simp at ha
+  | cons hab _ ih =>
+    simp only [List.mem_cons] at ha
+    rcases ha with rfl | ha
+    · exact ⟨_, by simp, hab⟩
+    · obtain ⟨r, hr, h⟩ := ih ha; exact ⟨r, by simp [hr], h⟩
+
+theorem forall₂_right {α β : Type} {R : α → β → Prop} {l : List α} {rs : List β} (h : List.Forall₂ R l rs)
+    (r : β) (hr : r ∈ rs) : ∃ a ∈ l, R a r := by
+  induction h with
+  | nil => simp at hr
+  | cons hab _ ih =>
+    simp only [List.mem_cons] at hr
+    rcases hr with rfl | hr
+    · exact ⟨_, by simp, hab⟩
+    · obtain ⟨a, ha, h⟩ := ih hr; exact ⟨a, by simp [ha], h⟩
+
+theorem tiles1_ends (p : Rat × Rat) (n : Nat) : (∃ q ∈ tiles1 p n, q.1 = p.1) ∧ (∃ q ∈ tiles1 p n, q.2 = p.2) := by
+  unfold tiles1
+  split
+  · exact ⟨⟨p, by simp, rfl⟩, ⟨p, by simp, rfl⟩⟩
+  · rename_i hn
+    have hn0 : n ≠ 0 := by omega
+    refine ⟨⟨_, List.mem_map.mpr ⟨0, List.mem_range.mpr (by omega), rfl⟩, knot_zero _ _ _⟩,
+            ⟨_, List.mem_map.mpr ⟨n - 1, List.mem_range.mpr (by omega), rfl⟩, ?_⟩⟩
+    have : n - 1 + 1 = n := by omega
+    simp only [this]; exact knot_last _ _ _ hn0
+
+/-- every corner of the box is a corner of some tile -/
+theorem corner_in_some_tile (box : Box) (n : Nat) (c : List Rat) (hc : c ∈ corners box) :
+    ∃ t ∈ tiles box n, c ∈ corners t := by
+  have h := (mem_prodL _ _).mp hc
+  clear hc
+  have : ∃ t, List.Forall₂ (fun a l => a ∈ l) t (box.map (fun p => tiles1 p n)) ∧
+      List.Forall₂ (fun a l => a ∈ l) c (t.map (fun p => [p.1, p.2])) := by
+    induction box generalizing c with
+    | nil => simp only [List.map_nil, List.forall₂_nil_right_iff] at h; subst h; exact ⟨[], .nil, .nil⟩
+    | cons p ps ih =>
+      simp only [List.map_cons, List.forall₂_cons_right_iff] at h
+      obtain ⟨a, c', ha, hc', rfl⟩ := h
+      obtain ⟨t, ht, hct⟩ := ih c' hc'
+      simp only [List.mem_cons, List.not_mem_nil, or_false] at ha
+      rcases ha with rfl | rfl
+      · obtain ⟨q, hq, hq1⟩ := (tiles1_ends p n).1
+        exact ⟨q :: t, by simp only [List.map_cons]; exact .cons hq ht,
+               by simp only [List.map_cons]; exact .cons (by simp [hq1]) hct⟩
+      · obtain ⟨q, hq, hq2⟩ := (tiles1_ends p n).2
+        exact ⟨q :: t, by simp only [List.map_cons]; exact .cons hq ht,
+               by simp only [List.map_cons]; exact .cons (by simp [hq2]) hct⟩
+  obtain ⟨t, ht, hct⟩ := this
+  exact ⟨t, (mem_prodL _ _).mpr ht, (mem_prodL _ _).mpr hct⟩
+
+theorem validBox_of_sub {t box : Box} (hs : SubBox t box) : ValidBox t := by
+  intro p hp
+  induction hs with
+  | nil => simp at hp
+  | cons h1 _ ih =>
+    simp only [List.mem_cons] at hp
+    rcases hp with rfl | hp
+    · exact h1.2.1
+    · exact ih hp
+
+/-- ★ subinterval reconstitution with vertices lies between the vertex result and the true range:
+it contains the vertex result of the un-subdivided box, and both its ends are values of the function
+at points of the box -/
+theorem subendpoints_between (φ : UFun → Rat → Rat) (e : Expr) (box : Box) (hv : ValidBox box) (n : Nat) (V : Val)
+    (h : subinterval φ e box (some .endpoints) (some n) = .ok V) :
+    (∀ E, endpoints φ e box = .ok E → V.lo ≤ E.lo ∧ E.hi ≤ V.hi) ∧
+    (∃ x, InBox x box ∧ evalPt φ x e = .ok V.lo) ∧ (∃ x, InBox x box ∧ evalPt φ x e = .ok V.hi) := by
+  simp only [subinterval, bind, Except.bind] at h
+  split at h
+  · cases h
+  · rename_i rs hrs
+    have hall := mapM_ok _ _ _ hrs
+    obtain ⟨hs, ⟨r1, hr1, e1⟩, ⟨r2, hr2, e2⟩⟩ := reconstitute_spec h
+    refine ⟨?_, ?_, ?_⟩
+    · intro E hE
+      obtain ⟨⟨c1, hc1, ec1⟩, ⟨c2, hc2, ec2⟩, _⟩ := endpoints_minmax_corners φ e box E hE
+      obtain ⟨t1, ht1, hct1⟩ := corner_in_some_tile box n c1 hc1
+      obtain ⟨t2, ht2, hct2⟩ := corner_in_some_tile box n c2 hc2
+      obtain ⟨ra, hra, hea⟩ := forall₂_left hall t1 ht1
+      obtain ⟨rb, hrb, heb⟩ := forall₂_left hall t2 ht2
+      obtain ⟨_, _, ha⟩ := endpoints_minmax_corners φ e t1 ra hea
+      obtain ⟨_, _, hb⟩ := endpoints_minmax_corners φ e t2 rb heb
+      obtain ⟨y1, hy1, m1, _⟩ := ha c1 hct1
+      obtain ⟨y2, hy2, _, m2⟩ := hb c2 hct2
+      rw [ec1] at hy1; rw [ec2] at hy2
+      cases hy1; cases hy2
+      exact ⟨le_trans (hs ra hra).1 m1, le_trans m2 (hs rb hrb).2⟩
+    · obtain ⟨t, ht, het⟩ := forall₂_right hall r1 hr1
+      have hsub := tiles_within box n hv t ht
+      obtain ⟨⟨x, hx, ex⟩, _⟩ := endpoints_inside_range φ e t (validBox_of_sub hsub) r1 het
+      exact ⟨x, inBox_of_sub hx hsub, by rw [ex, e1]⟩
+    · obtain ⟨t, ht, het⟩ := forall₂_right hall r2 hr2
+      have hsub := tiles_within box n hv t ht
+      obtain ⟨_, ⟨x, hx, ex⟩⟩ := endpoints_inside_range φ e t (validBox_of_sub hsub) r2 het
+      exact ⟨x, inBox_of_sub hx hsub, by rw [ex, e2]⟩
+
+example : subinterval (fun _ x => x) (.sub (.mul (.var 0) (.var 0)) (.var 0)) [(-1, 2)] (some .endpoints) (some 3)
+    = .ok (.ivl 0 2) := by decide +kernel
+
+/-! ## functions monotone in each argument -/
+
+/-- `f` is monotone (non-decreasing or non-increasing) in each coordinate over the box, the other
+coordinates ranging over the box -/
+def CoordMono : (List Rat → Rat) → Box → Prop
+  | _, [] => True
+  | f, p :: ps =>
+    ((∀ s t xs, p.1 ≤ s → s ≤ t → t ≤ p.2 → InBox xs ps → f (s :: xs) ≤ f (t :: xs)) ∨
+     (∀ s t xs, p.1 ≤ s → s ≤ t → t ≤ p.2 → InBox xs ps → f (t :: xs) ≤ f (s :: xs))) ∧
+    CoordMono (fun xs => f (p.1 :: xs)) ps ∧ CoordMono (fun xs => f (p.2 :: xs)) ps
+
+/-- a coordinatewise monotone function takes its extreme values over the box at corners -/
+theorem mono_corners (f : List Rat → Rat) (box : Box) (hm : CoordMono f box) (x : List Rat) (hx : InBox x box) :
+    (∃ c ∈ corners box, f c ≤ f x) ∧ (∃ c ∈ corners box, f x ≤ f c) := by
+  induction hx generalizing f with
+  | nil => exact ⟨⟨[], by simp [corners, prodL], le_refl _⟩, ⟨[], by simp [corners, prodL], le_refl _⟩⟩
+  | @cons a p xs ps hab hrest ih =>
+    obtain ⟨hdir, hlo, hhi⟩ := hm
+    obtain ⟨⟨cl1, hcl1, el1⟩, ⟨cl2, hcl2, el2⟩⟩ := ih (fun xs => f (p.1 :: xs)) hlo
+    obtain ⟨⟨ch1, hch1, eh1⟩, ⟨ch2, hch2, eh2⟩⟩ := ih (fun xs => f (p.2 :: xs)) hhi
+    have memlo : ∀ c ∈ corners ps, (p.1 :: c) ∈ corners (p :: ps) := by
+      intro c hc
+      simp only [corners, List.map_cons, prodL, List.mem_flatMap, List.mem_map]
+      exact ⟨p.1, by simp, c, hc, rfl⟩
+    have memhi : ∀ c ∈ corners ps, (p.2 :: c) ∈ corners (p :: ps) := by
+      intro c hc
+      simp only [corners, List.map_cons, prodL, List.mem_flatMap, List.mem_map]
+      exact ⟨p.2, by simp, c, hc, rfl⟩
+    rcases hdir with hinc | hdec
+    · exact ⟨⟨_, memlo cl1 hcl1, le_trans el1 (hinc p.1 a xs (le_refl _) hab.1 hab.2 hrest)⟩,
+             ⟨_, memhi ch2 hch2, le_trans (hinc a p.2 xs hab.1 hab.2 (le_refl _) hrest) eh2⟩⟩
+    · exact ⟨⟨_, memhi ch1 hch1, le_trans eh1 (hdec a p.2 xs hab.1 hab.2 (le_refl _) hrest)⟩,
+             ⟨_, memlo cl2 hcl2, le_trans (hdec p.1 a xs (le_refl _) hab.1 hab.2 hrest) el2⟩⟩
+
+/-- ★ for a response function that is monotone in each argument over the box, the vertex result is the
+true range: every value of the function on the box lies in it (and its ends are attained,
+`endpoints_inside_range`) -/
+theorem monotone_exact (φ : UFun → Rat → Rat) (e : Expr) (box : Box) (f : List Rat → Rat)
+    (hf : ∀ x, InBox x box → evalPt φ x e = .ok (f x)) (hv : ValidBox box) (hm : CoordMono f box) (V : Val)
+    (h : endpoints φ e box = .ok V) (x : List Rat) (hx : InBox x box) : V.lo ≤ f x ∧ f x ≤ V.hi := by
+  obtain ⟨_, _, hall⟩ := endpoints_minmax_corners φ e box V h
+  obtain ⟨⟨c1, hc1, e1⟩, ⟨c2, hc2, e2⟩⟩ := mono_corners f box hm x hx
+  obtain ⟨y1, hy1, m1, _⟩ := hall c1 hc1
+  obtain ⟨y2, hy2, _, m2⟩ := hall c2 hc2
+  rw [hf c1 (corner_inBox box hv c1 hc1)] at hy1
+  rw [hf c2 (corner_inBox box hv c2 hc2)] at hy2
+  cases hy1; cases hy2
+  exact ⟨le_trans m1 e1, le_trans e2 m2⟩
+
+/-- non-vacuity: `x0 - x1` is increasing in `x0` and decreasing in `x1` on every box -/
+example (box : Box) (p q : Rat × Rat) (hb : box = [p, q]) : CoordMono (fun x => x.getD 0 0 - x.getD 1 0) box := by
+  subst hb
+  refine ⟨Or.inl ?_, ⟨Or.inr ?_, trivial, trivial⟩, ⟨Or.inr ?_, trivial, trivial⟩⟩
+  · intro s t xs _ hst _ _; cases xs <;> simp <;> linarith
+  · intro s t xs _ hst _ _; simp; linarith
+  · intro s t xs _ hst _ _; simp; linarith
 
 end Pun.B2B
